@@ -318,9 +318,16 @@ def run(repo, rep, tier):  # noqa: F811 -- round-5 shape rules appended to the r
     if getattr(rep, "borrowed", False):
         return
     from ..core import round5 as _r5
+    from ..core.report import Only as _O5
+    from . import c13 as _c13b, c14 as _c14b
+    _c13b._codecs(repo, _O5(rep, {"R13.5"}))
+    _c14b._ownership(repo, _O5(rep, {"R14.8", "R14.9"}))
     _r5.valuespec_ownership(repo, rep, "R18.8")
 
 
 _ADDR5B = ' Borrowed: R18.8 (nested specs are derived with spec.copy, so dialect options reach nested positions).'
 EXPLANATION += _ADDR5B
 LEVEL_TEXT += _ADDR5B
+_ADDR5D = " Borrowed: R13.5 (codecs merge the user's dialect over the format dialect, never the reverse), R14.8 / R14.9 (strategy tables are never mutated or deep-copied in place: pass_through keeps its identity)."
+EXPLANATION += _ADDR5D
+LEVEL_TEXT += _ADDR5D
